@@ -23,7 +23,56 @@ def regen_check(ctx):
         shutil.rmtree(d, ignore_errors=True)
 
 
+def big_cases(quick):
+    """Sentences that need a deep parser stack or are very long: the grammar bounds neither the number of alternatives of
+    a rule (`|` is right-associative: nothing is reduced before the end of the rule), nor the nesting depth, nor the length
+    of a sequence, nor the number of rules."""
+    T = {n: i for i, n in enumerate(rd.TERMS)}
+    def spec(body):
+        return [T["grammar"], T["IDENT"], T[";"], T["IDENT"], T["="]] + body + [T[";"]]
+    def alts(n, item):
+        b = []
+        for i in range(n):
+            if i:
+                b.append(T["|"])
+            b += item
+        return b
+    out = []
+    for n in ([300, 511, 600] if quick else [100, 300, 510, 511, 512, 600, 1024, 2000, 5000]):
+        out.append(spec(alts(n, [T["STRING"]])))
+        out.append(spec(alts(n, [T["IDENT"], T["TOKEN"]]) + [T["|"]]))
+    for o, c in (("(", ")"), ("[", "]"), ("{", "}"), ("{{", "}}")):
+        for d in ([500, 1100] if quick else [200, 500, 1016, 1017, 1018, 1019, 1100, 2000, 4000]):
+            out.append(spec([T[o]] * d + [T["IDENT"]] + [T[c]] * d))
+            out.append(spec([T[o]] * d + [T["IDENT"]] + [T[c]] * (d - 1)))          # one bracket short: must be rejected
+    out.append(spec([T["IDENT"], T["STRING"]] * (2500 if quick else 20000)))
+    rules = [T["grammar"], T["IDENT"], T[";"]]
+    for _ in range(1500 if quick else 10000):
+        rules += [T["IDENT"], T["="], T["TOKEN"], T[";"]]
+    out.append(rules)
+    out.append([T["grammar"], T["IDENT"], T[";"]] + [T["@left"], T["STRING"], T[";"]] * (1200 if quick else 6000) + [T["IDENT"], T["="], T["IDENT"], T[";"]])
+    return out
+
+
 def run(ctx):
+    """the oracle is a recursive-descent recogniser: deep sentences need a deep Python stack"""
+    import sys, threading
+    sys.setrecursionlimit(1000000)
+    threading.stack_size(1 << 30)
+    box = {}
+    def go():
+        try:
+            box["rc"] = run_deep(ctx)
+        except BaseException as e:      # re-raised in the main thread
+            box["exc"] = e
+    th = threading.Thread(target=go)
+    th.start(); th.join()
+    if "exc" in box:
+        raise box["exc"]
+    return box["rc"]
+
+
+def run_deep(ctx):
     quick = ctx.tier == "quick"
     ctx.build_go()
     if not ctx.prepare(["tables"], "Emerge.Props.C04", quick):
@@ -34,6 +83,7 @@ def run(ctx):
                           {"detail": why, "how_to_run": "cd <copy of /repo>/internal/ebnf/parser && go run ./generate && cmp parsing_table.go /repo/internal/ebnf/parser/parsing_table.go"})
     nentries, nfilled = table_sweep(ctx)
     cases = token_cases(ctx, 3000 if quick else 60000, 3 if quick else 4)
+    cases += big_cases(quick)
     lines = [fmt_case(t) for t in cases]
     impl = ctx.run_impl("lr", lines)
     model = ctx.run_model("lr", lines)
@@ -53,7 +103,7 @@ def run(ctx):
             ctx.add_violation("parser disagrees with the recursive-descent recogniser written from the documented grammar",
                               {"token_kinds": t, "tokens": [rd.TERMS[k] for k in t], "implementation": i, "expected": exp, "model_of_code": m})
     cov = {"evaluations": len(cases) + nentries, "distinct_nontrivial": len(distinct),
-           "rule": "all token-kind sequences over the 22 kinds up to length %d, the same prefixed with `grammar IDENT`, plus seeded random valid specifications and 1-2 edit mutations; non-trivial = distinct accepted sequence longer than 4 tokens. tables: all 62 states x 23 terminal slots / 15 non-terminals against the exported ACTION/GOTO" % (3 if quick else 4),
+           "rule": "all token-kind sequences over the 22 kinds up to length %d, the same prefixed with `grammar IDENT`, plus seeded random valid specifications and 1-2 edit mutations, plus sentences that need a deep parser stack or are very long (rules with 300-5000 alternatives, 500-4000 nested groups of each bracket kind with and without the last bracket, sequences of 5000-40000 items, thousands of rules and directives); non-trivial = distinct accepted sequence longer than 4 tokens. tables: all 62 states x 23 terminal slots / 15 non-terminals against the exported ACTION/GOTO" % (3 if quick else 4),
            "samples": [" ".join(rd.TERMS[k] for k in cases[-1]), " ".join(rd.TERMS[k] for k in cases[-2])],
            "accepted": nacc, "table_entries_swept": nentries, "table_entries_filled": nfilled,
            "byte_for_byte_regeneration": same, "correspondence_disagreements": ncorr,
